@@ -239,10 +239,17 @@ def workload_file(desc: dict) -> dict:
                         e["work_profile"] = n["profile"]
                     if n.get("slo") is not None:
                         e["slo"] = n["slo"]
+                    # flags are written explicitly (true AND false) for about half of the nodes: a description may spell
+                    # `terminal: false`, and the loader must read the value, not the presence of the key
+                    explicit = sum(map(ord, str(n["name"]))) % 2 == 0
                     if n.get("cond"):
                         e["conditional"] = True
+                    elif explicit:
+                        e["conditional"] = False
                     if n.get("term"):
                         e["terminal"] = True
+                    elif explicit:
+                        e["terminal"] = False
                     if n.get("prob") is not None:
                         e["probability"] = n["prob"] / 1000
                     if n.get("children") is not None:
